@@ -159,7 +159,7 @@ def run_engine(spec, seed, tier, outdir, only=None, count_mult=1):
            "--out", outdir, "--tier", tier] + spec.get("args", [])
     if only is not None:
         cmd += ["--only", str(only)]
-    rc, out = sh(cmd, timeout=3000)
+    rc, out = sh(cmd, env=spec.get("env"), timeout=3000)
     metas = [f for f in glob.glob(os.path.join(outdir, "*.json"))]
     meta = metas[0] if metas else ""
     if rc != 0 or not meta:
@@ -210,6 +210,17 @@ def inventory_static(pid):
                 out.append(("inventory", "site not accounted for by the model: %s" % k))
         return out
     return fn
+
+
+def run_probe(probe):
+    """Runs a harness probe in a child process under a memory and time limit.  Returns a description when the process
+    aborted, was killed or did not return in time (the finding is confirmed), None when it returned a result."""
+    cmd = "ulimit -v %d; exec %s %s" % (probe.get("mem_kb", 2000000), harness_bin("release"), probe["cmd"])
+    rc, out = sh(["bash", "-c", cmd], timeout=probe.get("timeout", 40))
+    if rc == 0 and "probe returned" in out:
+        return None
+    tail = [l for l in out.strip().splitlines() if l.strip()][-3:]
+    return "rc=%d %s" % (rc, " | ".join(tail)[:300])
 
 
 def load_known():
@@ -332,6 +343,16 @@ def check_property(pid, tier, seed, replay=None):
                 if spec_fail:
                     break
 
+    # 4b. probes of resource-exhaustion findings (run in a child process under ulimit)
+    probe_results = []
+    if hok and not replay:
+        for pr in cfg.get("probes", []):
+            d = run_probe(pr)
+            probe_results.append({"class": pr["class"], "confirmed": d is not None, "detail": d})
+            if d is not None:
+                spec_fail.append({"engine": "probe", "seed": seed, "tier": tier, "case_id": -1, "eval": "probe",
+                                  "case": {"known_class": pr["class"], "probe": pr["cmd"], "what": pr["what"], "observed": d}})
+
     # 5. verdict
     known = [k for k in load_known() if k["property"] == pid]
     violations = []
@@ -386,6 +407,7 @@ def check_property(pid, tier, seed, replay=None):
             "case_kinds": stats, "mismatches": len(mismatch), "spec_failures": len(spec_fail),
             "known_findings_reported": sorted(known_hits.keys()),
             "broken_ties": [{"kind": k, "detail": d[:300]} for k, d in broken],
+            "probes": probe_results,
             "exhaustive": False,
         },
         "assumptions": cfg.get("assumes", []),
